@@ -218,6 +218,13 @@ class ScriptedApp:
                 err = await self._send(inst, send, op[1])
                 if err is not None and not (len(op) > 2 and op[2] == "tolerate"):
                     raise err
+            elif name == "send_linger":
+                # the application does some awaited clean-up before it lets the server's
+                # error out (a `finally: await close()`): its coroutine outlives the send
+                err = await self._send(inst, send, op[1])
+                if err is not None:
+                    await _sleep(op[2])
+                    raise err
             elif name == "send_in_group":
                 # the send happens in a child task of the application's own task group
                 # (anyio-style frameworks): a failure it raises surfaces wrapped in a group
